@@ -20,6 +20,8 @@ HISTORY = [
     "[ndx.array(shape=('N',), dtype=ndx.utf8) + 'x' for _ in range(3)]",
     "ndx.matmul(ndx.asarray(np.eye(2)), ndx.asarray(np.eye(2)))",
     "ndx.pi + ndx.e",
+    "b_ = ndx.asarray(np.zeros(3, dtype=np.float32)); b_[0] = ndx.pi; b_[1] = ndx.e; b_[2] = ndx.inf",     # library constants as update values
+    "i_ = ndx.asarray(np.zeros(2, dtype=np.int64)); v_ = ndx.asarray(np.array([1.5, 2.5])); i_[...] = v_",
 ]
 
 
@@ -44,6 +46,7 @@ def run(ctx):
              "out = nda.static_map(s, {'a': 1, 'bb': 2, 'ccc': 3, 'd': 4}, default=0)", "out = nda.isin(a, [3, 1, 2, 7])",
              "out = nda.static_map(a, {1: 'x', 2: 'y', 5: 'z'}, default='?')", "out = nda.isin(s, ['x']) | nda.isin(s, ['y', 'z', 'w'])",
              "out = nda.static_map(s, {'k%d' % i: float(i) for i in range(12)}, default=-1.0)"]
+    progs.append({"program": "out = a * ndx.pi + ndx.e", "inputs": {"a": {"dtype": "float64", "sig": ["N"]}}, "constants": {}})
     for kp in KEYED:
         progs.append({"program": kp, "inputs": {"s": {"dtype": "utf8", "sig": ["N"]}, "a": {"dtype": "int64", "sig": ["N"]}}, "constants": {}})
     n = len(progs)
